@@ -363,4 +363,7 @@ func checkC02(w *World, r *Report) {
 	checkSettleSeq(w, r, tm)
 	checkPairFee(w, r, tm)
 	checkMsgProp(w, r, tm, "MSG-PROP")
+	// "the only amounts that leave a user's account are the fee and the amount reserved" / "the unused part of the reservation"
+	r.Sub(func(w *World, r *Report) { checkC01(w, r) }, "CREDIT-RECORD", "PAIR-RESERVE", "DRAIN")
+	r.Sub(checkC04, "RD-SIB", "REFUND-PROV")
 }
